@@ -63,6 +63,12 @@ func kstr(s string) []byte { return append(be16(len(s)), []byte(s)...) }
 
 // setup bytes a side sends before its first message
 func setup(proto string, isClient bool) []byte {
+	if proto == "amqp" {
+		if isClient {
+			return []byte("AMQP\x00\x00\x09\x01")
+		}
+		return nil
+	}
 	if proto != "http2" {
 		return nil
 	}
@@ -94,6 +100,29 @@ func encode(proto string, isReq bool, pid int, key int, st *encState) []byte {
 		fr := http2.NewFramer(&out, nil)
 		fr.WriteHeaders(http2.HeadersFrameParam{StreamID: uint32(key), BlockFragment: append([]byte(nil), st.hbuf.Bytes()...), EndStream: true, EndHeaders: true})
 		return out.Bytes()
+	case "amqp":
+		// queue.declare (50,10) / queue.declare-ok (50,11) on channel `key`; the queue name carries the marker
+		var pl []byte
+		pl = append(pl, be16(50)...)
+		if isReq {
+			pl = append(pl, be16(10)...)
+			pl = append(pl, be16(0)...)
+			pl = append(pl, byte(len(mark)))
+			pl = append(pl, mark...)
+			pl = append(pl, 0)
+			pl = append(pl, be32(0)...)
+		} else {
+			pl = append(pl, be16(11)...)
+			pl = append(pl, byte(len(mark)))
+			pl = append(pl, mark...)
+			pl = append(pl, be32(3)...)
+			pl = append(pl, be32(1)...)
+		}
+		fr := []byte{1}
+		fr = append(fr, be16(key)...)
+		fr = append(fr, be32(len(pl))...)
+		fr = append(fr, pl...)
+		return append(fr, 0xCE)
 	case "kafka":
 		var body []byte
 		if isReq {
